@@ -72,6 +72,7 @@ pub struct ActionSpec {
     mods: Vec<(i64, Sx)>,
     conds: Vec<(i64, Sx)>,
     binds: Vec<BindSpec>,
+    routes: Option<Vec<Sx>>, // C19: build the bindings through these route expressions instead
 }
 #[derive(Clone)]
 pub struct InstSpec {
@@ -130,6 +131,7 @@ fn parse_spec(s: &Sx) -> InstSpec {
                         BindSpec { input: c[0].clone(), mods: id_list(&c[1]), conds: id_list(&c[2]) }
                     })
                     .collect(),
+                routes: None,
             }
         })
         .collect();
@@ -138,16 +140,24 @@ fn parse_spec(s: &Sx) -> InstSpec {
 
 pub fn key_of(k: i64) -> KeyCode {
     match k {
-        0 => KeyCode::KeyA,
+        0 => KeyCode::KeyQ,
         1 => KeyCode::KeyB,
         2 => KeyCode::KeyC,
-        3 => KeyCode::KeyD,
+        3 => KeyCode::KeyX,
         4 => KeyCode::KeyE,
         5 => KeyCode::KeyF,
         6 => KeyCode::KeyG,
         7 => KeyCode::KeyH,
         8 => KeyCode::Space,
         9 => KeyCode::Enter,
+        10 => KeyCode::KeyW,
+        11 => KeyCode::KeyA,
+        12 => KeyCode::KeyS,
+        13 => KeyCode::KeyD,
+        14 => KeyCode::ArrowUp,
+        15 => KeyCode::ArrowLeft,
+        16 => KeyCode::ArrowDown,
+        17 => KeyCode::ArrowRight,
         100 => KeyCode::AltLeft,
         101 => KeyCode::AltRight,
         102 => KeyCode::ControlLeft,
@@ -223,6 +233,12 @@ fn build_instance(ctx: &mut ContextInstance, spec: &InstSpec, slots: &Slots, log
         }
         for (id, c) in &a.conds {
             bind.with_conditions(logged_cond(*id, c, log));
+        }
+        if let Some(routes) = &a.routes {
+            for r in routes {
+                bind.to(eval_route(r, log));
+            }
+            continue;
         }
         for b in &a.binds {
             let mut ib = InputBind::new(parse_input(&b.input));
@@ -396,6 +412,9 @@ fn mirror(world: &World) -> String {
 
 impl Runner {
     pub fn new(sc: &Sx) -> Runner {
+        Self::new_with_routes(sc, None)
+    }
+    pub fn new_with_routes(sc: &Sx, routes: Option<&Sx>) -> Runner {
         let (_, a) = sc.app(); // mkScenario [menu] [ents] [cfg] [steps]
         let menu: Vec<usize> = a[0].list().iter().map(|x| x.int() as usize).collect();
         let ents = ilist(&a[1]);
@@ -405,7 +424,18 @@ impl Runner {
         for x in a[2].list() {
             let (_, p) = x.app(); // pair (pair c e) spec
             let (_, ce) = p[0].app();
-            let spec = parse_spec(&p[1]);
+            let mut spec = parse_spec(&p[1]);
+            if let Some(rt) = routes {
+                for entry in rt.list() {
+                    let (_, q) = entry.app(); // pair (pair c e) [[routes] ..]
+                    let (_, ce2) = q[0].app();
+                    if ce2[0].int() == ce[0].int() && ce2[1].int() == ce[1].int() {
+                        for (k, rl) in q[1].list().iter().enumerate() {
+                            spec.actions[k].routes = Some(rl.list().to_vec());
+                        }
+                    }
+                }
+            }
             if let Some(p) = spec.pad {
                 npads = npads.max(p + 1);
             }
@@ -688,6 +718,21 @@ pub fn run_scenario(sc: &Sx) -> String {
         let ts: Vec<String> = a[0].list().iter().map(run_scenario).collect();
         return format!("(mtrace [{}])", ts.join(" "));
     }
+    if h == "routed" {
+        // (routed [routes per (c,e)] scenario): same steps, bindings built through the route expressions
+        let (_, b) = a[1].app();
+        let mut r = Runner::new_with_routes(&a[1], Some(&a[0]));
+        let mut outs = vec![];
+        for st in b[3].list() {
+            let o = r.step(st);
+            let stop = o.ends_with("true)");
+            outs.push(o);
+            if stop {
+                break;
+            }
+        }
+        return format!("(trace [{}])", outs.join(" "));
+    }
     let mut r = Runner::new(sc);
     let mut outs = vec![];
     for st in a[3].list() {
@@ -704,4 +749,152 @@ pub fn run_scenario(sc: &Sx) -> String {
 #[allow(dead_code)]
 fn _unused(world: &mut World) {
     let _ = SystemState::<Commands>::new(world);
+}
+
+// ---------------------------------------------------------------------------------------------
+// C19: construction routes.  A route expression is evaluated through the crate's own trait impls
+// (tuples, slices, arrays, Vec, *_each wrappers, presets); `DynSet` only erases the static type.
+
+pub trait DynSetT {
+    fn binds(self: Box<Self>) -> Vec<InputBind>;
+}
+impl<T: InputBindSet> DynSetT for T {
+    fn binds(self: Box<Self>) -> Vec<InputBind> {
+        (*self).bindings().collect()
+    }
+}
+pub struct DynSet(pub Box<dyn DynSetT>);
+impl InputBindSet for DynSet {
+    fn bindings(self) -> impl Iterator<Item = InputBind> {
+        self.0.binds().into_iter()
+    }
+}
+
+/// a logged modifier / condition that can be cloned (the `*_each` helpers clone their set per input)
+pub struct CloneMod {
+    id: i64,
+    spec: Sx,
+    log: SharedLog,
+    inner: Box<dyn InputModifier>,
+}
+impl Clone for CloneMod {
+    fn clone(&self) -> Self {
+        CloneMod { id: self.id, spec: self.spec.clone(), log: self.log.clone(), inner: parse_mod(&self.spec) }
+    }
+}
+impl std::fmt::Debug for CloneMod {
+    fn fmt(&self, f: &mut std::fmt::Formatter<'_>) -> std::fmt::Result {
+        write!(f, "CloneMod({})", self.id)
+    }
+}
+impl InputModifier for CloneMod {
+    fn apply(&mut self, a: &bevy_enhanced_input::input_context::context_instance::ActionsData, t: &Time<Virtual>, v: ActionValue) -> ActionValue {
+        let seen = seen_states(a);
+        let r = self.inner.apply(a, t, v);
+        self.log.push(LogItem::Mod { id: self.id, vin: v, vout: r, seen });
+        r
+    }
+}
+pub struct CloneCond {
+    id: i64,
+    spec: Sx,
+    log: SharedLog,
+    inner: Box<dyn InputCondition>,
+}
+impl Clone for CloneCond {
+    fn clone(&self) -> Self {
+        CloneCond { id: self.id, spec: self.spec.clone(), log: self.log.clone(), inner: parse_cond(&self.spec) }
+    }
+}
+impl std::fmt::Debug for CloneCond {
+    fn fmt(&self, f: &mut std::fmt::Formatter<'_>) -> std::fmt::Result {
+        write!(f, "CloneCond({})", self.id)
+    }
+}
+impl InputCondition for CloneCond {
+    fn evaluate(&mut self, a: &bevy_enhanced_input::input_context::context_instance::ActionsData, t: &Time<Virtual>, v: ActionValue) -> ActionState {
+        let seen = seen_states(a);
+        let r = self.inner.evaluate(a, t, v);
+        self.log.push(LogItem::Cond { id: self.id, vin: v, res: r, seen });
+        r
+    }
+    fn kind(&self) -> ConditionKind {
+        self.inner.kind()
+    }
+}
+fn clone_mods(l: &Sx, log: &SharedLog) -> Vec<CloneMod> {
+    id_list(l).into_iter().map(|(id, s)| CloneMod { id, inner: parse_mod(&s), spec: s, log: log.clone() }).collect()
+}
+fn clone_conds(l: &Sx, log: &SharedLog) -> Vec<CloneCond> {
+    id_list(l).into_iter().map(|(id, s)| CloneCond { id, inner: parse_cond(&s), spec: s, log: log.clone() }).collect()
+}
+
+struct OwnedInputs(Vec<Input>, u8);
+impl DynSetT for OwnedInputs {
+    fn binds(self: Box<Self>) -> Vec<InputBind> {
+        match self.1 {
+            0 => (&self.0[..]).bindings().collect(),         // &[I]
+            1 => (&self.0).bindings().collect(),             // &Vec<I>
+            _ => match self.0.len() {                        // &[I; N]
+                1 => { let a: [Input; 1] = [self.0[0]]; (&a).bindings().collect() }
+                2 => { let a: [Input; 2] = [self.0[0], self.0[1]]; (&a).bindings().collect() }
+                3 => { let a: [Input; 3] = [self.0[0], self.0[1], self.0[2]]; (&a).bindings().collect() }
+                _ => (&self.0[..]).bindings().collect(),
+            },
+        }
+    }
+}
+
+pub fn eval_route(s: &Sx, log: &SharedLog) -> DynSet {
+    let (h, a) = s.app();
+    match h {
+        "RSingle" => {
+            let (_, c) = a[0].app(); // mkBind input [mods] [conds]
+            let mut ib = InputBind::new(parse_input(&c[0]));
+            for (id, m) in id_list(&c[1]) {
+                ib = ib.with_modifiers(logged_mod(id, &m, log));
+            }
+            for (id, cnd) in id_list(&c[2]) {
+                ib = ib.with_conditions(logged_cond(id, &cnd, log));
+            }
+            DynSet(Box::new(ib))
+        }
+        "RRaw" => DynSet(Box::new(parse_input(&a[0]))), // a bare Input (Into<InputBind>)
+        "RTuple" => {
+            let mut v: Vec<DynSet> = a[0].list().iter().map(|x| eval_route(x, log)).collect();
+            match v.len() {
+                1 => { let x = v.remove(0); DynSet(Box::new((x,))) }
+                2 => { let y = v.remove(1); let x = v.remove(0); DynSet(Box::new((x, y))) }
+                3 => { let z = v.remove(2); let y = v.remove(1); let x = v.remove(0); DynSet(Box::new((x, y, z))) }
+                4 => { let w = v.remove(3); let z = v.remove(2); let y = v.remove(1); let x = v.remove(0); DynSet(Box::new((x, y, z, w))) }
+                n => panic!("tuple of {n} not supported by the harness"),
+            }
+        }
+        "RSlice" => DynSet(Box::new(OwnedInputs(a[1].list().iter().map(parse_input).collect(), a[0].int() as u8))),
+        "RModsEach" => {
+            let inner = eval_route(&a[0], log);
+            let mut ms = clone_mods(&a[1], log);
+            match ms.len() {
+                1 => DynSet(Box::new(inner.with_modifiers_each(ms.remove(0)))),
+                2 => { let b = ms.remove(1); let a0 = ms.remove(0); DynSet(Box::new(inner.with_modifiers_each((a0, b)))) }
+                n => panic!("mods_each with {n} modifiers not supported by the harness"),
+            }
+        }
+        "RCondsEach" => {
+            let inner = eval_route(&a[0], log);
+            let mut cs = clone_conds(&a[1], log);
+            match cs.len() {
+                1 => DynSet(Box::new(inner.with_conditions_each(cs.remove(0)))),
+                2 => { let b = cs.remove(1); let a0 = cs.remove(0); DynSet(Box::new(inner.with_conditions_each((a0, b)))) }
+                n => panic!("conds_each with {n} conditions not supported by the harness"),
+            }
+        }
+        "RCardinal" => DynSet(Box::new(Cardinal { north: eval_route(&a[0], log), east: eval_route(&a[1], log), south: eval_route(&a[2], log), west: eval_route(&a[3], log) })),
+        "RBidirectional" => DynSet(Box::new(Bidirectional { positive: eval_route(&a[0], log), negative: eval_route(&a[1], log) })),
+        "RStick" => DynSet(Box::new(if a[0].boolean() { GamepadStick::Left } else { GamepadStick::Right })),
+        "RWasd" => DynSet(Box::new(Cardinal::wasd_keys())),
+        "RArrows" => DynSet(Box::new(Cardinal::arrow_keys())),
+        "RDpad" => DynSet(Box::new(Cardinal::dpad_buttons())),
+        o => panic!("bad route {o}"),
+    }
 }
